@@ -1203,13 +1203,19 @@ func buildStubs() map[string]stubFn {
 			}
 			return Tuple{tc.FFromInt(WF64, acc, true), ex.nilError()}
 		}
-		if ex.choose(2) == 0 {
-			ex.recordConcreteInput("env", "parsefloat:err", 0)
-			return Tuple{tc.FConst(WF64, 0), ex.errorValue("strconv.ParseFloat: invalid syntax")}
+		// non-digit text: recognised by text when it is one of a few representative forms (negative, fractional,
+		// huge, tiny, NaN, infinities); every other text is a syntax error in this model (stated bound)
+		for _, cand := range []string{"-1", ".5", "1e30", "1e-9", "NaN", "Inf", "-Inf", "-0"} {
+			if len(cand) != len(s.b) {
+				continue
+			}
+			if ex.branch(ex.strEq(s, ex.mkStr(cand))) {
+				v, _ := strconv.ParseFloat(cand, 64)
+				return Tuple{tc.FConst(WF64, v), ex.nilError()}
+			}
 		}
-		ex.recordConcreteInput("env", "parsefloat:ok-nondigit", 1)
-		ex.note("ParseFloat of a symbolic non-digit text modelled as an arbitrary value (replay may not reproduce)")
-		return Tuple{ex.newEnvVar("parsedf", WF64), ex.nilError()}
+		ex.note("ParseFloat model: all-digit texts exact, a fixed set of other forms by text, anything else a syntax error")
+		return Tuple{tc.FConst(WF64, 0), ex.errorValue("strconv.ParseFloat: invalid syntax")}
 	}
 	m["strconv.FormatFloat"] = func(ex *Exec, c *frame, fn *ssa.Function, a []Value) Value {
 		t := a[0].(*Term)
@@ -1686,6 +1692,58 @@ func buildStubs() map[string]stubFn {
 			d[i] = ex.mkStr(p)
 		}
 		return ex.mkDenseSlice(d)
+	}
+
+	// ---- encoding/hex on symbolic bytes (table lookups would fork 256 ways per byte)
+	hexVal := func(ex *Exec, c *Term) (*Term, *Term) {
+		tc := ex.tc
+		isDig := tc.And(tc.Cmp(OUle, ex.u8('0'), c), tc.Cmp(OUle, c, ex.u8('9')))
+		isLow := tc.And(tc.Cmp(OUle, ex.u8('a'), c), tc.Cmp(OUle, c, ex.u8('f')))
+		isUp := tc.And(tc.Cmp(OUle, ex.u8('A'), c), tc.Cmp(OUle, c, ex.u8('F')))
+		v := tc.Ite(isDig, tc.Bin(OSub, c, ex.u8('0')), tc.Ite(isLow, tc.Bin(OSub, c, ex.u8('a'-10)), tc.Bin(OSub, c, ex.u8('A'-10))))
+		return v, tc.Or(isDig, tc.Or(isLow, isUp))
+	}
+	m["encoding/hex.DecodeString"] = func(ex *Exec, c *frame, fn *ssa.Function, a []Value) Value {
+		s := a[0].(*StrV)
+		tc := ex.tc
+		errV := func(msg string) Value { return Tuple{(*SliceV)(nil), ex.errorValue(msg)} }
+		valid := tc.True
+		var out []*Term
+		for i := 0; i+1 < len(s.b); i += 2 {
+			hi, okh := hexVal(ex, s.b[i])
+			lo, okl := hexVal(ex, s.b[i+1])
+			valid = tc.And(valid, tc.And(okh, okl))
+			out = append(out, tc.Bin(OOr, tc.Bin(OShl, hi, ex.u8(4)), lo))
+		}
+		if len(s.b)%2 == 1 {
+			_, okl := hexVal(ex, s.b[len(s.b)-1])
+			valid = tc.And(valid, okl)
+		}
+		if !ex.branch(valid) {
+			return errV("encoding/hex: invalid byte")
+		}
+		if len(s.b)%2 == 1 {
+			return errV("encoding/hex: odd length hex string")
+		}
+		if len(out) == 0 {
+			return Tuple{ex.mkDenseSlice([]Value{}), ex.nilError()}
+		}
+		return Tuple{ex.mkByteSlice(out), ex.nilError()}
+	}
+	m["encoding/hex.EncodeToString"] = func(ex *Exec, c *frame, fn *ssa.Function, a []Value) Value {
+		sl, _ := a[0].(*SliceV)
+		if sl.isNil() {
+			return ex.emptyStr
+		}
+		tc := ex.tc
+		var out []*Term
+		nib := func(n *Term) *Term {
+			return tc.Ite(tc.Cmp(OUlt, n, ex.u8(10)), tc.Bin(OAdd, n, ex.u8('0')), tc.Bin(OAdd, n, ex.u8('a'-10)))
+		}
+		for _, b := range ex.bytesOf(sl) {
+			out = append(out, nib(tc.Bin(OLShr, b, ex.u8(4))), nib(tc.Bin(OAnd, b, ex.u8(15))))
+		}
+		return &StrV{b: out}
 	}
 
 	// ---- regexp: abstract predicate (one arbitrary Bool per distinct concrete key per expression)
